@@ -181,7 +181,56 @@ def delegation(ctx, meths, rule='C14.D1'):
             ctx.ob(rule, 'extend delegates to MutableSequence.extend (append of each row through insert)', True,
                    '%s:%d' % (F, fn.lineno))
         else:
-            ctx.error(rule, 'Grid.extend no longer starts with super().extend(values): %s' % texts[:1])
+            extend_own(ctx, meths, rule, want=('typeguard',))
+
+
+def extend_own(ctx, meths, rule, want=('typeguard', 'validate')):
+    """Grid.extend written without super().extend: it must do for every row what insert does -- refuse non-dict rows with
+    TypeError (`typeguard`) and pass every value of every row to _detect_or_validate (`validate`) -- before the rows reach
+    _row.  Returns True when extend delegates to the mixin (nothing to check here)."""
+    fn = meths.get('extend')
+    if fn is None:
+        return True
+    s = _self(fn)
+    v = fn.args.args[1].arg if len(fn.args.args) > 1 else 'values'
+    texts = [norm(x) for x in body_wo_doc(fn)]
+    if texts and texts[0] in ('super(Grid, %s).extend(%s)' % (s, v), 'super().extend(%s)' % v):
+        return True
+    bulk = [n for n in ast.walk(fn) if isinstance(n, ast.Call) and norm(n.func) in ('%s._row.extend' % s, '%s._row.__iadd__' % s)]
+    bulk += [n for n in ast.walk(fn) if isinstance(n, ast.AugAssign) and norm(n.target) == '%s._row' % s]
+    per_row = [n for n in ast.walk(fn) if isinstance(n, ast.Call) and norm(n.func) in ('%s.insert' % s, '%s.append' % s)]
+    if per_row and not bulk:
+        ctx.ob(rule, 'extend adds the rows one by one through insert/append (each row is checked there)', True,
+               '%s:%d' % (F, fn.lineno))
+        return False
+    if not bulk:
+        ctx.error(rule, 'Grid.extend: neither super().extend nor a store into _row found; cannot decide')
+        return False
+    guard = any(isinstance(n, ast.If) and 'isinstance' in norm(n.test) and 'dict' in norm(n.test) and n.body
+                and isinstance(n.body[0], ast.Raise) and norm(n.body[0].exc).startswith('TypeError') for n in ast.walk(fn))
+    valid = any(isinstance(n, ast.Call) and norm(n.func) == '%s._detect_or_validate' % s for n in ast.walk(fn)) and \
+        any(isinstance(n, ast.For) and norm(n.iter).endswith('.values()') for n in ast.walk(fn))
+    where = '%s:%d' % (F, fn.lineno)
+    if 'typeguard' in want:
+        if guard:
+            ctx.ob(rule, 'extend refuses non-dict rows with TypeError before storing', True, where)
+        else:
+            ctx.violation(rule, '%s::Grid.extend' % F, norm(bulk[0]),
+                          'grid.extend([None]) (or `grid += [5]`): insert and append refuse a non-dict row with TypeError, this '
+                          'extend stores the rows in bulk without that test -- it raises AttributeError instead, or accepts any '
+                          'object that has .values()', 'Grid.extend stores rows in bulk without the non-dict TypeError guard '
+                          'of insert', file=F, line=bulk[0].lineno, engine='E6')
+    if 'validate' in want:
+        if valid:
+            ctx.ob(rule, 'extend passes every value of every row to _detect_or_validate before storing', True, where)
+        else:
+            ctx.violation(rule, '%s::Grid.extend' % F, norm(bulk[0]),
+                          'the document ver:"3.0" / a / <<ver:"2.0" b [1]>> (a 2.0 grid nested in a 3.0 document, holding a '
+                          'list): the ZINC reader builds the inner grid with extend(), which now stores the rows without the '
+                          'version check -- a grid labelled 2.0 holding a list is returned instead of the document being rejected',
+                          'Grid.extend stores rows in bulk without validating their values against the grid version', file=F,
+                          line=bulk[0].lineno, engine='E6')
+    return False
 
 
 # ------------------------------------------------------------------ C14.D2 refuse-then-unchanged
